@@ -283,6 +283,10 @@ def gen_cases(tier, seed):
                                 ("(td|td)", [t[0], d[0], t[1], d[1]]), ("(td|dt)", [t[0], d[0], d[1], t[1]]),
                                 ("(dt|td)", [d[0], t[0], t[1], d[1]]), ("(dt|dt)", [d[0], t[0], d[1], t[1]])):
             cases.append({"kind": "kernel", "shells": [dict(s) for s in order], "classes": ["ill:" + name, "arr:" + arr_name], "cost": 400})
+        if name in ("ss|dd 1e5/0.1", "ss|ff 1e3/0.2", "pp|dd 1e4/0.1", "ss|dd contracted core"):
+            # all four shells on ONE centre (an atom): the orientation rules must not depend on the centres being different
+            for arr_name, order in (("(tt|dd)", [t[0], t[1], d[0], d[1]]), ("(dd|tt)", [d[0], d[1], t[0], t[1]]), ("(td|dt)", [t[0], d[0], d[1], t[1]])):
+                cases.append({"kind": "kernel", "shells": [dict(s, c=list(cen[0])) for s in order], "classes": ["ill:" + name, "arr:" + arr_name, "one-centre"], "cost": 400})
         if any(len(s_["e"]) > 1 for s_ in t + d):
             # the same contracted shells with their primitives listed diffuse-to-tight
             for arr_name, order in (("(tt|dd)", [t[0], t[1], d[0], d[1]]), ("(td|dt)", [t[0], d[0], d[1], t[1]])):
